@@ -469,9 +469,10 @@ Definition uri_parse (t : bytes) : option (bytes * option bytes) :=
   end.
 Definition uri_path (t : bytes) : option bytes := option_map fst (uri_parse t).
 
-(** the URI kvarn's HTTP/1 reader ([kvarn_async::read::request]: scheme "://" Host-header target) and
-    the in-process harness build for a request target: what the client writes into the Host header is part of
-    the text that is parsed, so a Host header "localhost/.." puts "/.." in front of the target's path *)
+(** the URI scheme "://" host target: what the in-process harness builds for ANY Host header (a Host header
+    "localhost/.." puts "/.." in front of the target's path), and what kvarn's HTTP/1 readers
+    ([kvarn_async::read::request], [application::parse_http_1]) build when the value of the Host header is a URI
+    authority (since cdbcb3a any other value stays out of the URI: Model/PathSanPipe.v [uri_of_h1]) *)
 Definition uri_of (host_header t : bytes) : option (bytes * option bytes) := uri_parse (B "http://" ++ host_header ++ t).
 Definition target_uri (t : bytes) : option (bytes * option bytes) := uri_of (B "localhost") t.
 
